@@ -29,7 +29,22 @@ ST = "/venv/bin/st"
 SINKS = ["console", "curl", "junit", "vcr", "har"]
 ROUTES = ["user-header", "auth-basic", "gen-header", "gen-query", "gen-cookie", "url-userinfo", "resp-set-cookie", "resp-header",
           "requests-auth", "schema-userinfo", "schema-query"]
-CUSTOM = {"default": None, "custom-keys": {"keys_to_sanitize": ["X-Custom"]}, "custom-markers": {"sensitive_markers": ["Zeta"]}}
+CUSTOM = {"default": None, "custom-keys": {"keys_to_sanitize": ["X-Custom"]}, "custom-markers": {"sensitive_markers": ["Zeta"]},
+          "no-cookie-keys": None}  # filled by set_default_keys(): the default keys without cookie / set-cookie
+
+
+def set_default_keys(keys: list[str] | None = None) -> None:
+    """Install the "no-cookie-keys" configuration: the specification's default key list (or, outside run(), the library's) minus the
+    header names cookie / set-cookie, so that cookies are judged one by one."""
+    if keys is None:
+        from schemathesis.core.output.sanitization import DEFAULT_KEYS_TO_SANITIZE
+
+        keys = sorted(DEFAULT_KEYS_TO_SANITIZE)
+    CUSTOM["no-cookie-keys"] = {"keys_to_sanitize": [k for k in keys if k not in ("cookie", "set-cookie")]}
+
+
+POSITIONS = ["first", "middle", "last"]
+SEPARATORS = {"semicolon-space": "; ", "semicolon": ";"}
 NOT_GENERATED_HEADERS = {"accept", "content-type", "authorization", "cookie", "set-cookie", "user-agent", "location", "etag"}
 NOT_RESPONSE_HEADERS = {"content-type", "content-length", "set-cookie", "cookie", "location"}
 CANARY = "Cnry7Secret"  # unit level only
@@ -57,8 +72,8 @@ def unit_observe(case: dict) -> list[dict]:
     cfg = _config(kind)
     rows = []
 
-    def row(form: str, rendered: str) -> None:
-        rows.append({"name": case["name"], "cfg": kind, "form": form, "redacted": CANARY not in rendered})
+    def row(form: str, rendered: str, header: str = "-") -> None:
+        rows.append({"name": case["name"], "cfg": kind, "form": form, "header": header, "redacted": CANARY not in rendered})
 
     d = {name: [CANARY], "X-Other": ["v"]}
     sanitize_value(d, config=cfg)
@@ -75,6 +90,16 @@ def unit_observe(case: dict) -> list[dict]:
     sanitize_value(d, config=cfg)
     row("case-insensitive-dict", json.dumps(dict(d)))
     row("url-query", sanitize_url("http://h.example/p?%s=%s&z=1" % (quote(name, safe=""), CANARY), config=cfg))
+    # the value as one cookie among others inside a Cookie / Set-Cookie header: every position x both separator spellings
+    if re.fullmatch(r"[!#$%&'*+\-.^_`|~0-9A-Za-z]+", name):
+        for header in ("Cookie", "Set-Cookie"):
+            for pos in POSITIONS:
+                for sep_name, sep in SEPARATORS.items():
+                    cookies = ["theme=dark", "lang=en"]
+                    cookies.insert(POSITIONS.index(pos), "%s=%s" % (name, CANARY))
+                    d = {header: [sep.join(cookies)]}
+                    sanitize_value(d, config=cfg)
+                    row("cookie-%s-%s" % (pos, sep_name), json.dumps(d), header.lower())
     return rows
 
 
@@ -95,15 +120,15 @@ for cps in names:
     name = "".join(map(chr, cps))
     d = {name: [canary]}
     sanitize_value(d)
-    rows.append({"name": cps, "cfg": kind, "form": "global-config", "redacted": canary not in json.dumps(d)})
+    rows.append({"name": cps, "cfg": kind, "form": "global-config", "header": "-", "redacted": canary not in json.dumps(d)})
     try:
         cmd = op.Case(headers={name: canary}, query={name: canary}, cookies={name: canary}).as_curl_command()
     except Exception as exc:
         continue
     # userinfo of the base url must be gone as well; report separately
     head, _, url = cmd.rpartition(" ")
-    rows.append({"name": cps, "cfg": kind, "form": "curl-api", "redacted": canary not in head and ("=" + canary) not in url})
-    rows.append({"name": cps, "cfg": kind, "form": "curl-api-userinfo", "redacted": (canary + "@") not in url})
+    rows.append({"name": cps, "cfg": kind, "form": "curl-api", "header": "-", "redacted": canary not in head and ("=" + canary) not in url})
+    rows.append({"name": cps, "cfg": kind, "form": "curl-api-userinfo", "header": "-", "redacted": (canary + "@") not in url})
 print(json.dumps(rows))
 """
     p = subprocess.run(["/venv/bin/python", "-c", code], input=json.dumps([kind, CUSTOM[kind], names, CANARY]), capture_output=True,
@@ -274,6 +299,8 @@ def plan_runs(ctx: Ctx, pool: list[str], default_keys: list[str]) -> list[dict]:
              location_run("custom-keys", True, ["X-Custom", "cookie", "token"])]
     # every default key x 3 spellings x {header, query, cookie}: 3 rotations; under custom markers only the exact-key rule can match
     runs += [key_run("default", True, r) for r in range(3)] + [key_run("custom-markers", True, r) for r in range(3)]
+    # without cookie / set-cookie among the keys the Cookie header is redacted cookie by cookie: every default key at every position
+    runs += [key_run("no-cookie-keys", True, r) for r in ([ctx.seed % 3] if ctx.quick else range(3))]
     runs.append(key_run("default", False, ctx.seed % 3))
     if ctx.quick:
         return runs
@@ -537,8 +564,10 @@ def run(ctx: Ctx) -> Outcome:
     rng = random.Random(ctx.seed)
     names: list[dict] = []
     flows: list[dict] = []
+    cookie_family: list[dict] = []
     res = tlc.require_ok(tlc.run_tlc("Sanitize", "Sanitize.cfg", workers=1, timeout=1800, want_prints=False,
-                                     on_json=lambda t, d: (names if t == "NAME" else flows).append(d)), "Sanitize enumeration")
+                                     on_json=lambda t, d: {"NAME": names, "FLOW": flows, "COOKIE": cookie_family}[t].append(d)),
+                         "Sanitize enumeration")
     for inv in res.violated:
         out.violations.append(Violation("C15:spec:" + inv, "design invariant %s violated in Sanitize.tla" % inv,
                                         {"kind": "spec", "invariant": inv, "trace": res.counterexample[:60]}))
@@ -555,6 +584,8 @@ def run(ctx: Ctx) -> Outcome:
         if text(n["name"]) not in pool:
             pool.append(text(n["name"]))
     default_keys = sorted({text(n["name"]) for n in names if n["isDefaultKey"]})
+    set_default_keys(default_keys)
+    cookie_exp = {(text(c["name"]), c["cfg"], c["route"], c["pos"], c["sep"]): c["redacted"] for c in cookie_family}
 
     # (i) unit level ---------------------------------------------------------------------------------------------
     t1 = time.time()
@@ -614,7 +645,11 @@ def run(ctx: Ctx) -> Outcome:
 
     # driver-side comparison against the exported expectations; must coincide with TLC's verdict
     for i, u in enumerate(units):
-        want = True if u["form"] == "curl-api-userinfo" else sens[(text(u["name"]).lower(), u["cfg"])]
+        if u["header"] != "-":
+            _, pos, sep_name = u["form"].split("-", 2)
+            want = cookie_exp[(text(u["name"]), u["cfg"], "gen-cookie" if u["header"] == "cookie" else "resp-set-cookie", pos, sep_name)]
+        else:
+            want = True if u["form"] == "curl-api-userinfo" else sens[(text(u["name"]).lower(), u["cfg"])]
         mine = set() if u["redacted"] == want else {(u["form"], "-", "over-redacted" if u["redacted"] else "leak")}
         if mine != unit_bad.get(i, set()):
             raise tlc.TLCFailure("unit %s: driver %s, TLC %s - machinery inconsistency" % (u, mine, unit_bad.get(i)))
@@ -674,7 +709,8 @@ def run(ctx: Ctx) -> Outcome:
         "judge_states": jres.distinct,
         "evaluations": len(units) + sum(len(r["routes"]) * len(SINKS) for r in observed),
         "distinct_nontrivial": sum(1 for n in names if n["sensitive"]) + n_nontrivial,
-        "name_cfg_pairs": len(names), "flow_matrix_cells": len(flows), "unit_observations": len(units),
+        "name_cfg_pairs": len(names), "cookie_position_family": len(cookie_family),
+        "cookie_position_observations": sum(1 for u in units if u["header"] != "-"), "flow_matrix_cells": len(flows), "unit_observations": len(units),
         "e2e_runs": len(plan), "sinks_not_wellformed_not_judged": len(dead_sinks), "api_channel_observations": len(api_obs), "default_keys": len(default_keys),
         "e2e_slots_judged": sum(len(r["routes"]) for r in observed), "e2e_cells_judged": n_cells, "e2e_cells_expected_absent": n_nontrivial,
         "skipped_outside_fragment": not_ex, "routes_planned_but_not_exercised": not_ex,
@@ -713,6 +749,7 @@ def text_name(r: dict, route: str) -> str:
 
 def replay(ctx: Ctx, data: dict) -> Outcome:
     out = Outcome()
+    set_default_keys()
     if data.get("kind") == "unit":
         u = data["unit"]
         rows = unit_observe({"name": u["name"], "cfg": u["cfg"]}) if not u["form"].startswith(("global", "curl-api")) else \
@@ -745,9 +782,11 @@ def replay(ctx: Ctx, data: dict) -> Outcome:
 def selftest(ctx: Ctx) -> bool:
     """Binding: a flipped observation must be rejected by the TLA+ judge, the untouched one accepted."""
     name = [ord(c) for c in "X-Api-Key"]
-    units = [{"name": name, "cfg": "default", "form": "header-list", "redacted": True},
-             {"name": name, "cfg": "default", "form": "header-list", "redacted": False},
-             {"name": [ord(c) for c in "Accept"], "cfg": "default", "form": "header-list", "redacted": True}]
+    units = [{"name": name, "cfg": "default", "form": "header-list", "header": "-", "redacted": True},
+             {"name": name, "cfg": "default", "form": "header-list", "header": "-", "redacted": False},
+             {"name": [ord(c) for c in "Accept"], "cfg": "default", "form": "header-list", "header": "-", "redacted": True},
+             {"name": [ord(c) for c in "PHPSESSID"], "cfg": "no-cookie-keys", "form": "cookie-last-semicolon-space", "header": "cookie", "redacted": False},
+             {"name": [ord(c) for c in "theme"], "cfg": "no-cookie-keys", "form": "cookie-last-semicolon-space", "header": "cookie", "redacted": False}]
     present = {s: False for s in SINKS}
     runs = [{"cfg": "default", "sanitize": True, "dead": [], "routes": [{"route": "user-header", "name": name, "k": 0, "present": present}]},
             {"cfg": "default", "sanitize": True, "dead": [], "routes": [{"route": "user-header", "name": name, "k": 0, "present": dict(present, vcr=True)}]},
@@ -760,7 +799,8 @@ def selftest(ctx: Ctx) -> bool:
     if hb != {1: {("url", 3, "leak")}}:
         print("selftest: history judge gave", hb)
         return False
-    ok = ub == {1: {("header-list", "-", "leak")}, 2: {("header-list", "-", "over-redacted")}} and \
+    ok = ub == {1: {("header-list", "-", "leak")}, 2: {("header-list", "-", "over-redacted")},
+                3: {("cookie-last-semicolon-space", "-", "leak")}} and \
         rb == {1: {("user-header", "vcr", "leak", 0)}, 2: {("user-header", "curl", "missing", 0), ("user-header", "junit", "missing", 0)}}
     if not ok:
         print("selftest: judge gave", ub, rb)
